@@ -379,13 +379,24 @@ func (m mechSpec) maxRequest(gm bool) int {
 func (m mechSpec) minEntropyInstantiate(gm bool) int {
 	if gm {
 		switch m.Kind {
-		case "hash":
+		case "hash", "hmac": // hmac: the code's own GM flavour, same minimum as its Reseed
 			return m.outlen()
 		case "ctr":
 			return 32
 		}
 	}
 	return 1
+}
+
+// safeEntropy is an instantiate entropy length that is valid under every
+// reading (at least the instantiate and the reseed minimum); the generators
+// use it for their main path and visit the HMAC-GM "either" zone separately.
+func (m mechSpec) safeEntropy(gm bool) int {
+	a, b := m.minEntropyInstantiate(gm), m.minEntropyReseed(gm)
+	if b > a {
+		return b
+	}
+	return a
 }
 
 func (m mechSpec) minNonce(gm bool) int {
